@@ -197,3 +197,5 @@ def run(ctx, rep):
                 r_e.finding(inst + "|result-not-returned", loc_str(b.f, cs[0].loc), "the command's Result is not written to main's return place")
             else:
                 r_e.ok(inst, loc_str(b.f, cs[0].loc))
+    from rules import c13_dir
+    c13_dir.run(ctx, rep)
